@@ -185,6 +185,24 @@ func init() {
 			sb.WriteString("\t" + v.sig + "\n}\n")
 			cells = append(cells, &scen.Cell{ID: fmt.Sprintf("c08dot_%d", i), Family: "signature", Files: map[string]string{"setup.go": sb.String()}, Meta: c08Meta{Style: 9, Recv: 1, SrcImp: 1, Named: i}})
 		}
+		// shapes Go has that the documented signatures do not: a variadic additional argument, a receiver of an unnamed type
+		for i, v := range []struct {
+			notes []string
+			sig   string
+		}{
+			{nil, "Conv(*S, ...string) *D"},
+			{[]string{":style arg"}, "Conv(s *S, opts ...int) (*D, error)"},
+			{[]string{":recv r"}, "Conv(struct{ A int }) *D"},
+			{[]string{":recv r", ":style arg"}, "Conv(*struct{ A int }) *D"},
+		} {
+			var sb strings.Builder
+			sb.WriteString("//go:build convergen\n\npackage x\n\ntype S struct {\n\tA int\n}\n\ntype D struct {\n\tA int\n}\n\ntype Convergen interface {\n")
+			for _, n := range v.notes {
+				sb.WriteString("\t// " + n + "\n")
+			}
+			sb.WriteString("\t" + v.sig + "\n}\n")
+			cells = append(cells, &scen.Cell{ID: fmt.Sprintf("c08x_%d", i), Family: "signature", Files: map[string]string{"setup.go": sb.String()}, Meta: c08Meta{Style: 8, Named: i}})
+		}
 		e.Rep.Bound("extra_args_max", maxArgs-1)
 		// operand names: receiver / parameter names over the F7 alphabet (blank, underscore, non-ASCII, keyword, and the
 		// names the generator invents itself: src, dst, err, arg0)
@@ -198,6 +216,30 @@ func init() {
 				return e.c08Operands(o, fm, t)
 			}
 			m := o.Cell.Meta.(c08Meta)
+			if m.Style == 8 {
+				// outside the documented shapes: refused with a message, or - if accepted - the output type-checks and keeps the shape
+				t.AddEvaluations(1)
+				t.AddValidated(1)
+				t.Family("signature/undocumented", o.Res.Exit == 0, false)
+				t.Outcome("undocumented-shape")
+				if o.Res.Crashed() || o.Res.TimedOut {
+					return []report.Finding{{Key: fmt.Sprintf("C08|crash|undocumented-shape|variant=%d", m.Named), What: clip(o.Res.Stderr, 300)}}
+				}
+				if o.Res.Exit != 0 {
+					if strings.TrimSpace(o.Res.Stderr) == "" {
+						return []report.Finding{{Key: fmt.Sprintf("C08|rejected-silently|undocumented-shape|variant=%d", m.Named), What: "rejected without a message"}}
+					}
+					return nil
+				}
+				c := e.WS.Uni.Check(e.WS.PkgPath(o.Cell), scen.OrdinaryFiles(o), nil)
+				if c.FirstError() != "" {
+					return []report.Finding{{Key: fmt.Sprintf("C08|accepted-does-not-compile|undocumented-shape|variant=%d", m.Named), What: c.FirstError()}}
+				}
+				if m.Named <= 1 && !strings.Contains(o.Out, "...") {
+					return []report.Finding{{Key: fmt.Sprintf("C08|variadic-parameter-lost|variant=%d", m.Named), What: "the declared variadic parameter came out as a slice parameter"}}
+				}
+				return nil
+			}
 			if m.Style == 9 {
 				// dot-imported receiver type: documented as illegal (receiver of an imported type)
 				t.AddEvaluations(1)
